@@ -149,8 +149,14 @@ def _followed_by_notify(report, rule, finfo, write_pred, what, exceptions=()):
         write_pred(n)]
   nots = [n for n, c in lib.nodes_with_call(g) if last_attr(c) in (
       'notify_update', '_notify_update')]
+  def leaves(n):
+    # returning, or handing control to the with-body (yield), both let other
+    # code run: the notification must have happened by then
+    return n is g.exit or (n.kind == 'stmt' and any(
+        isinstance(s, ast.Yield) for s in n.subnodes()))
+
   for w in ws:
-    ok = g.must_pass(w, g.is_normal_exit,
+    ok = g.must_pass(w, leaves,
                      lambda n: any(n is x for x in nots),
                      avoid_edge=lambda a, l, b: l == 'exc')
     report.check(
